@@ -16,7 +16,8 @@ import numpy as np
 
 from odl.discr import RectPartition
 from odl.tomo.util import is_inside_bounds, perpendicular_vector
-from odl.tomo.util.utility import rotation_matrix_from_to
+from odl.tomo.util.utility import (
+    axis_rotation_matrix, rotation_matrix_from_to)
 from odl.util import array_str, indent, signature_string
 
 __all__ = ('Detector',
@@ -963,7 +964,13 @@ class CylindricalDetector(Detector):
 
         initial_axes = np.array([[0, -1, 0], [0, 0, 1]])
         r1 = rotation_matrix_from_to(initial_axes[0], axes[0])
-        r2 = rotation_matrix_from_to(np.matmul(r1, initial_axes[1]), axes[1])
+        # The second rotation must keep the first axis in place, i.e., it
+        # is a rotation around ``axes[0]``
+        axis = self.__axes[0]
+        vec = np.matmul(r1, initial_axes[1])
+        angle = np.arctan2(np.dot(np.cross(vec, self.__axes[1]), axis),
+                           np.dot(vec, self.__axes[1]))
+        r2 = axis_rotation_matrix(axis, angle)
         self.__rotation_matrix = np.matmul(r2, r1)
         self.__translation = (-self.__radius
                               * np.matmul(self.__rotation_matrix, (1, 0, 0)))
@@ -1222,7 +1229,13 @@ class SphericalDetector(Detector):
 
         initial_axes = np.array([[0, -1, 0], [0, 0, 1]])
         r1 = rotation_matrix_from_to(initial_axes[0], axes[0])
-        r2 = rotation_matrix_from_to(np.matmul(r1, initial_axes[1]), axes[1])
+        # The second rotation must keep the first axis in place, i.e., it
+        # is a rotation around ``axes[0]``
+        axis = self.__axes[0]
+        vec = np.matmul(r1, initial_axes[1])
+        angle = np.arctan2(np.dot(np.cross(vec, self.__axes[1]), axis),
+                           np.dot(vec, self.__axes[1]))
+        r2 = axis_rotation_matrix(axis, angle)
         self.__rotation_matrix = np.matmul(r2, r1)
         self.__translation = (- self.__radius
                               * np.matmul(self.__rotation_matrix, (1, 0, 0)))
